@@ -214,13 +214,18 @@ impl Cx {
     }
     let pj = prot.map(|h| h.json(idx));
     let uj = unprot.map(|h| h.json(idx / 2));
+    self.run_pair(idx, pj, uj, rules, H::eff_b64(prot), prot.map(|h| h.alg).unwrap_or(false));
+  }
+
+  /// Runs one header pair (given as JSON text) through every entry point and judges it against `rules`.
+  fn run_pair(&mut self, idx: u64, pj: Option<String>, uj: Option<String>, rules: Vec<&'static str>, eff_b64_prot: bool, prot_alg: bool) {
     let case = json!({"protected":pj,"unprotected":uj});
     let ph: Option<JwsHeader> = pj.as_ref().map(|j| serde_json::from_str(j).expect("table header must deserialize"));
     let uh: Option<JwsHeader> = uj.as_ref().map(|j| serde_json::from_str(j).expect("table header must deserialize"));
     let payload = b"hello";
 
     // ---- encoders
-    if unprot.is_none() {
+    if uj.is_none() {
       if let Some(ph) = &ph {
         for (name, opt) in [
           ("compact-encoder", CompactJwsEncodingOptions::NonDetached { charset_requirements: CharSet::Default }),
@@ -242,7 +247,7 @@ impl Cx {
       let first_json = if first_b64_false { r#"{"alg":"EdDSA","b64":false,"crit":["b64"]}"# } else { r#"{"alg":"EdDSA"}"# };
       let first: JwsHeader = serde_json::from_str(first_json).unwrap();
       let eff_first = !first_b64_false;
-      let disagree = H::eff_b64(prot) != eff_first;
+      let disagree = eff_b64_prot != eff_first;
       let r = catch(|| {
         let enc = GeneralJwsEncoder::new(payload, Recipient::new().protected(&first), false).expect("valid first recipient");
         let enc = enc.set_signature(b"sig");
@@ -257,10 +262,10 @@ impl Cx {
     let payload_seg = "aGVsbG8"; // valid both as base64url text and as an unencoded payload
     let pseg = pj.as_ref().map(|j| jwsb::protected_segment(j));
     let entry = jwsb::SigEntry { protected_segment: pseg.clone(), unprotected_json: uj.clone(), signature_segment: "c2ln".into() };
-    let verify_extra = if prot.map(|h| h.alg).unwrap_or(false) { None } else { Some("verify-without-protected-alg") };
+    let verify_extra = if prot_alg { None } else { Some("verify-without-protected-alg") };
     let dec = Decoder::new();
     let jwk = self.jwk.clone();
-    if unprot.is_none() {
+    if uj.is_none() {
       if let Some(pseg) = &pseg {
         let tok = format!("{}.{}.c2ln", pseg, payload_seg);
         let r = catch(|| dec.decode_compact_serialization(tok.as_bytes(), None).map(|item| item.verify(&liar(), &jwk).is_ok()));
@@ -357,6 +362,37 @@ fn main() {
       }
       cx.pair(idx, Some(p), Some(u));
     }
+  }
+  // ---- every registered header parameter (and a custom one) shared between the two headers, one at a time: each has
+  // its own clause in the disjointness check, so each gets its own rows (shared => reject, not shared => accept)
+  let jwk_json = vh::keys::Key::ed(2).public_jwk_json(None);
+  let params: Vec<(&str, String)> = vec![
+    ("jku", "\"https://example.com/jwks.json\"".into()),
+    ("jwk", jwk_json),
+    ("kid", "\"k-1\"".into()),
+    ("x5u", "\"https://example.com/cert.pem\"".into()),
+    ("x5c", "[\"MIIB\"]".into()),
+    ("x5t", "\"dGh1bWI\"".into()),
+    ("x5t#S256", "\"dGh1bWIyNTY\"".into()),
+    ("typ", "\"JWT\"".into()),
+    ("cty", "\"text/plain\"".into()),
+    ("url", "\"https://example.com/u\"".into()),
+    ("nonce", "\"n-1\"".into()),
+    ("x-only", "1".into()),
+  ];
+  for (i, (n, v)) in params.iter().enumerate() {
+    idx += 1;
+    if !args.mine(idx) {
+      continue;
+    }
+    let with = format!("{{\"alg\":\"EdDSA\",\"{}\":{}}}", n, v);
+    let only = format!("{{\"{}\":{}}}", n, v);
+    cx.rep.inc("shared_name_rows");
+    cx.run_pair(idx, Some(with.clone()), Some(only.clone()), vec!["headers-share-parameter"], true, true);
+    cx.run_pair(idx, Some(with.clone()), None, vec![], true, true);
+    cx.run_pair(idx, Some("{\"alg\":\"EdDSA\"}".to_string()), Some(only.clone()), vec![], true, true);
+    let (m, w) = &params[(i + 1) % params.len()];
+    cx.run_pair(idx, Some(with), Some(format!("{{\"{}\":{}}}", m, w)), vec![], true, true);
   }
   cx.rep.note("table_rows", json!(idx));
   cx.rep.finish();
